@@ -207,7 +207,7 @@ def gen_history(rng, allow_setseed):
         elif kind == "reseed":
             ops.append(["reseed"])
         elif kind == "setseed" and allow_setseed:
-            ops.append(["setseed", rng.randrange(0, 2 ** 31)])
+            ops.append(["setseed", rng.choice([0, 0, 1, 12345, 2 ** 32, rng.randrange(0, 2 ** 31), rng.randrange(2 ** 62)])])   # every legal seed VALUE, the falsy one too
     return ops
 
 
@@ -886,7 +886,7 @@ def multi_ops(rng):
         elif kind == "reseed":
             ops.append(["reseed"])
         else:
-            ops.append(["setseed", rng.randrange(0, 2 ** 31)])
+            ops.append(["setseed", rng.choice([0, 0, 1, 12345, 2 ** 32, rng.randrange(0, 2 ** 31), rng.randrange(2 ** 62)])])   # every legal seed VALUE, the falsy one too
     return ops
 
 
